@@ -193,6 +193,8 @@ func (eng *Engine) discharge(vc *VC, workDir string, timeoutMs int, thorough boo
 			o.Status, o.Solver = "unsat", "trivial"
 		case !o.Cover && o.Guard == "false":
 			o.Status, o.Solver = "unsat", "trivial"
+		case vc.retryOnly && (o.Cover || o.Status == "unsat"):
+			// second pass: only what the first pass left open
 		default:
 			pending[i] = true
 		}
